@@ -96,7 +96,7 @@ impl MetricSink for RecSink {
         match self.script.lock().unwrap().pop_front() {
             None | Some(SinkOutcome::Accept) => Ok(metric.len()),
             Some(SinkOutcome::AcceptN(n)) => Ok(n),
-            Some(SinkOutcome::Refuse(k, id)) => Err(io::Error::new(IO_KINDS[k % IO_KINDS.len()], Payload(id))),
+            Some(SinkOutcome::Refuse(k, id)) => Err(crate::util::refusal(IO_KINDS[k % IO_KINDS.len()], id)),
         }
     }
 
